@@ -1,11 +1,19 @@
 #!/bin/bash
-# Re-runs the registered check of the property each seeded change breaks (from its stored patch) and prints a summary.
-# usage: tools/seed_rerun_all.sh [budget]
+# Re-runs, for every seeded change, one registered check that caught it (the property of its id if that one caught it,
+# else the first of caught_by) from the stored patch on a scratch copy of /repo, and prints one line per change.
+# usage: tools/seed_rerun_all.sh [budget] [id-glob]
 cd "$(dirname "$0")/.."
 B="${1:-25}"
-for d in seeded/*/; do
+G="${2:-*}"
+for d in seeded/$G/; do
   id=$(basename "$d")
-  prop=$(python3 -c "import json;print(json.load(open('$d/meta.json'))['breaks'])")
-  tools/seed_intake.py "$id" /nonexistent "$prop" --props "$prop" --budget "$B" 2>&1 | grep against
+  prop=$(python3 - "$d" "$id" <<'PY'
+import json,sys
+m=json.load(open(sys.argv[1]+"/meta.json")); cb=m.get("caught_by") or []
+own=sys.argv[2].split("-")[0]
+print(own if own in cb else (cb[0] if cb else ""))
+PY
+)
+  if [ -z "$prop" ]; then echo "$id: no check is recorded as catching it (see meta.json)"; continue; fi
+  tools/seed_intake.py "$id" /nonexistent "$prop" --props "$prop" --budget "$B" --skip-verify 2>&1 | grep against
 done
-python3 tools/gen_sensitivity_table.py
